@@ -191,6 +191,18 @@ class Engine:
     def oblige(self, st, kind, goal, tag=""):
         if self.spec_mode:
             return
+        catching = getattr(self, "_catching", None)
+        if catching is not None and kind == "noexc" and str(tag).startswith("KeyError") and not getattr(self, "concrete", False):
+            # dry run of the first statement of a `try: ... except KeyError:` block: the lookup's success condition is collected, not demanded
+            if isinstance(goal, (list, tuple)):
+                catching.extend(goal)
+            elif goal is not True:
+                catching.append(z3.BoolVal(False) if goal is False else goal)
+            return
+        if getattr(self, "_try_rest", 0) and kind == "noexc" and str(tag).startswith("KeyError") and not getattr(self, "concrete", False):
+            g_ = z3.simplify(goal) if z3.is_expr(goal) else goal
+            if not (g_ is True or (z3.is_expr(g_) and z3.is_true(g_))) and not self._first_of_try_done(st, goal):
+                raise Unsupported("a lookup inside a try block, after its first statement, may raise the KeyError the block catches")
         if getattr(self, "concrete", False):
             # concrete cross-check run: every value is a constant, an obligation evaluates to a truth value; a false `noexc`/`assert` is the point where
             # CPython raises
@@ -445,7 +457,7 @@ class Engine:
         if len(declared) != len(names):
             raise Unsupported("arity of %s changed: %r vs contract %r" % (contract.qualname, names, [d[0] for d in declared]))
         for (cname, sort), real in zip(declared, names):
-            v = sort.fresh(cname)
+            v = sort if isinstance(sort, VModel) else sort.fresh(cname)       # a model object given directly (a value the function only reads through the model's operations)
             st.env[real] = v
             if real != cname:
                 st.env[cname] = v
@@ -578,6 +590,64 @@ class Engine:
 
     def stmt_Continue(self, node, st):
         yield st, (Flow.CONTINUE,)
+
+    def stmt_Try(self, node, st):
+        """try: S0; S1...  except KeyError: H  [else: E]   where only the lookups of the FIRST statement S0 can raise KeyError and S0 has no effect before them
+        (an assignment / expression statement whose evaluation is pure up to the lookups).  Then the block is `if <all lookups of S0 succeed>: S0; S1...; E
+        else: H`.  The success condition is collected by a dry run of S0 on a copy of the state; a KeyError obligation arising in S1... stays an obligation
+        (it would be caught in Python: reported Unsupported instead, see below)."""
+        if node.finalbody or len(node.handlers) != 1 or not isinstance(node.handlers[0].type, ast.Name) or node.handlers[0].type.id != "KeyError" \
+                or node.handlers[0].name is not None or not node.body:
+            raise Unsupported("try statement other than `try ... except KeyError:` (line %d)" % node.lineno)
+        if getattr(self, "concrete", False):
+            try:
+                outs = list(self.exec_block(node.body + node.orelse, st))
+            except ConcreteRaise as e:
+                if not str(e.tag).startswith("KeyError"):
+                    raise
+                outs = list(self.exec_block(node.handlers[0].body, st))
+            yield from outs
+            return
+        first = node.body[0]
+        if not isinstance(first, (ast.Assign, ast.Expr)) or (isinstance(first, ast.Assign) and not all(self._plain_target(t) for t in first.targets)):
+            raise Unsupported("try block whose first statement is not a plain assignment or expression (line %d)" % node.lineno)
+        probe = st.copy()
+        n_obl, saved_counter = len(self.obligations), dict(self.counter)
+        self._catching = conds = []
+        try:
+            list(self.exec_stmt(first, probe))
+        finally:
+            self._catching = None
+            del self.obligations[n_obl:]
+            self.counter = saved_counter
+        ok = z3.And(*conds) if conds else z3.BoolVal(True)
+        s_ok, s_fail = st, st.copy()
+        s_ok.assume(ok)
+        s_fail.assume(z3.Not(ok))
+        if self.feasible(s_ok):
+            self._try_rest = getattr(self, "_try_rest", 0) + 1
+            try:
+                outs = list(self.exec_block(node.body, s_ok))
+            finally:
+                self._try_rest -= 1
+            for s1, flow in outs:
+                if flow[0] == Flow.NEXT:
+                    yield from self.exec_block(node.orelse, s1)
+                else:
+                    yield s1, flow
+        if conds and self.feasible(s_fail):
+            yield from self.exec_block(node.handlers[0].body, s_fail)
+
+    def _first_of_try_done(self, st, goal):
+        # the success condition of the first statement was assumed on this path: its own lookups are known to succeed
+        return any(z3.is_expr(c) and (c.eq(goal) or (z3.is_and(c) and any(ch.eq(goal) for ch in c.children()))) for c in st.pc[-8:])
+
+    def _plain_target(self, t):
+        if isinstance(t, ast.Name):
+            return True
+        if isinstance(t, (ast.Tuple, ast.List)):
+            return all(self._plain_target(x) for x in t.elts)
+        return False
 
     def stmt_Raise(self, node, st):
         name = "Exception"
@@ -728,6 +798,8 @@ class Engine:
             return r
         if isinstance(v, VOpt) and isinstance(sort, (_Int, _Real)):
             return self.unopt(st, v, "TypeError-None-argument")
+        if isinstance(sort, _Int) and isinstance(v, VList) and getattr(v, "pystr", None) is not None:
+            return self.key_of(v)        # a constant string held in a variable declared as a string id
         if isinstance(v, tuple) and v == ("emptyset",) and isinstance(sort, SET):
             return VSet(sort.key, z3.K(sort.key.z3sort(), z3.BoolVal(False)))
         if isinstance(v, tuple) and v == ("emptylist",) and isinstance(sort, LIST):
@@ -1403,6 +1475,27 @@ class Engine:
     def expr_Set(self, node, st):
         # a set display of constants/tuples: kept as the collection of its items (membership and iteration)
         return VTuple([self.eval(e, st) for e in node.elts])
+
+    def expr_JoinedStr(self, node, st):
+        """f-string: an opaque string value (an integer id) that is a function of the template text and of its integer-valued arguments"""
+        import hashlib
+        tmpl, argv = [], []
+        for part in node.values:
+            if isinstance(part, ast.Constant):
+                tmpl.append(str(part.value))
+            elif isinstance(part, ast.FormattedValue):
+                v = self.eval(part.value, st)
+                if not is_z3int(v):
+                    raise Unsupported("f-string argument that is not an integer")
+                tmpl.append("{%s}" % (ast.unparse(part.format_spec) if part.format_spec is not None else ""))
+                argv.append(to_z3(v))
+            else:
+                raise Unsupported("f-string part")
+        name = "FSTRING_" + hashlib.sha1("".join(tmpl).encode()).hexdigest()[:10]
+        if not argv:
+            return self.str_const("".join(tmpl))
+        f = z3.Function(name, *([z3.IntSort()] * (len(argv) + 1)))
+        return f(*argv)
 
     def expr_Lambda(self, node, st):
         return VLambda(node)
